@@ -26,6 +26,7 @@ cdef class AsyncListener:
     cdef public cython.bytes data
     cdef public double last_time
     cdef public DNSIncoming last_message
+    cdef public object last_addrs
     cdef public object transport
     cdef public object sock_description
     cdef public cython.dict _deferred
@@ -34,7 +35,7 @@ cdef class AsyncListener:
     @cython.locals(now=double, debug=cython.bint)
     cpdef datagram_received(self, cython.bytes bytes, cython.tuple addrs)
 
-    @cython.locals(msg=DNSIncoming)
+    @cython.locals(msg=DNSIncoming, duplicate=cython.bint, repeat=cython.bint)
     cpdef _process_datagram_at_time(self, bint debug, cython.uint data_len, double now, bytes data, cython.tuple addrs)
 
     cdef _cancel_any_timers_for_addr(self, object addr)
